@@ -171,6 +171,7 @@ func propC05(r *kernel.Run) {
 				nonceSigner = nil
 			}
 		}
+		claimKid := claim.KeyId
 		var stateBytes []byte
 		if withState {
 			st := mkStruct(r, 2+tp.Draw(2))
@@ -179,6 +180,31 @@ func propC05(r *kernel.Run) {
 			if stateSigner != nil {
 				req.ClientStateSignature = ed25519.Sign(stateSigner.Priv, stateBytes)
 			}
+			if tp.Draw(10) == 0 {
+				// something that is not a signature at all: too short or too long (cut from a real one, or random)
+				n := tp.Range(1, 130)
+				if n == ed25519.SignatureSize {
+					n++
+				}
+				sig := append(append([]byte{}, req.ClientStateSignature...), tp.Bytes(130)...)
+				req.ClientStateSignature = sig[:n]
+				stateSigner = nil
+			}
+		}
+		if nonceSigner != nil && tp.Draw(14) == 0 {
+			n := tp.Range(1, 130)
+			if n == ed25519.SignatureSize {
+				n++
+			}
+			req.NonceSignature = append(append([]byte{}, req.NonceSignature...), tp.Bytes(130)...)[:n]
+			nonceSigner = nil
+		}
+		if tp.Draw(20) == 0 {
+			// the claimed key is a well-formed public key of another algorithm: nothing verifies under it, nothing panics
+			req.CertificatePublicKeyPkix = foreignAlgorithmPkix(tp.Draw(2))
+			claimKid = "" // no record can be filed under that key; the node-ID path is judged as always (by the records' keys)
+			req.SkipVerification, local = false, false
+			r.Count("cfg.claimed_key_of_other_algorithm", 1)
 		}
 
 		// reference model: the lookup scope
@@ -190,7 +216,7 @@ func propC05(r *kernel.Run) {
 			case "node-N2":
 				scope = inStorage(underM)
 			}
-		} else if id := byKeyID[claim.KeyId]; id != nil && !removed[id.KeyId] {
+		} else if id := byKeyID[claimKid]; id != nil && !removed[id.KeyId] {
 			scope = []*Ident{id}
 		}
 		verifies := func(rec *Ident) bool {
